@@ -125,6 +125,17 @@ def run(chk):
         chk.note("cat_" + c["cat"])
         for dt in R.dtypes_for(c):
             oracle(chk, c, dt, found)
+    # (1b) the same answer, up to the exact factor 2^e, at the ends of the dtype's range: with (1) this is the
+    # allowance -reg_eps s^2 w_i (resp. MGDA's) at scales where J J^T leaves the range of the input dtype
+    n_ext = 0
+    for c in cases:
+        if c["name"] in R.EXTREME and len(c["J"]) >= 2 and c["cat"].split("+")[0] in ("conflict", "antiparallel", "generic") \
+                and n_ext < (9 if chk.tier == "quick" else 90) and float(A.sigma_max(c["J"])) > 0:
+            if c["name"] == "MGDA" and A.mgda_has_tie(c["J"], c["params"]["epsilon"], min(c["params"]["max_iters"], 20), rel=1e-4):
+                continue
+            n_ext += 1
+            R.extreme_scales(chk, found, c, {"f64": 1e-6, "f32": 5e-3}, "C04", dts=R.dtypes_for(c))
+    chk.notes["extreme_scale_cases"] = n_ext
     # (2) exhaustive ternary matrices
     shapes = [(2, 2), (2, 3), (3, 2)] if chk.tier == "quick" else [(2, 2), (2, 3), (3, 2), (3, 3)]
     ex = 0
@@ -163,6 +174,8 @@ def replay(chk, obj):
     if c["name"] == "MGDA":
         c["params"]["max_iters"] = int(c["params"]["max_iters"])
     found = set()
+    if obj.get("kind") == "extreme_scale":
+        return R.extreme_scales(chk, found, c, {"f64": 1e-6, "f32": 5e-3}, "C04", dts=(obj.get("dtype", "f64"),))
     oracle(chk, c, obj.get("dtype", "f64"), found)
     print("impl:", A.impl_call(c["name"], c["params"], c["J"], obj.get("dtype", "f64"))[:2])
     return not chk.violations
